@@ -401,6 +401,15 @@ func evalOneConcrete(e *Engine, fn *ssa.Function, oc *replayOutcome, clause *Cla
 	if !inPre {
 		postSt = post.state(2000)
 	}
+	// the ghost allocation counter is observed as the bytes the Go runtime allocated during the call
+	preSt.heaps["G.allocated"] = Term{"0", sInt}
+	if !inPre {
+		a := "0"
+		if _, ok := new(big.Int).SetString(oc.Alloc, 10); ok {
+			a = oc.Alloc
+		}
+		postSt.heaps["G.allocated"] = Term{a, sInt}
+	}
 	env := &SpecEnv{u: cu, vars: vars, st: postSt, old: preSt, pkg: fn.Pkg, bound: map[string]Term{}, ctx: "concrete evaluation"}
 	t := env.evalBool(clause.X)
 	ob := &Obligation{Name: "concrete", Goal: t, NItems: len(cu.items)}
